@@ -16,7 +16,7 @@ for d in sorted(glob.glob(os.path.join(root, "seeded", "*"))):
         first = "on purpose: judged outside the statement, see meta.json"
         if m.get("obsolete"):
             first = "no longer a fault on the repaired tree: " + m["obsolete"][:140] + "...; caught by " + ", ".join(m.get("caught_by_before_d643864", [])) + " before"
-    asbuilt[name] = not note.startswith("missed at first")
+    asbuilt[name] = (bool(m.get("caught_by")) or bool(m.get("obsolete"))) and not note.startswith("missed at first")
     rows.append(f"| {name} | {', '.join(os.path.basename(f) for f in m.get('files', []))} | {summ} | {needs} | {caught} ({first}) |")
 hand = """
 Hand-made changes applied while the checks were built (each killed by the quick tier, then reverted):
